@@ -76,17 +76,22 @@ func runC06(c *Ctx, idx int, o *Obs) {
 	if r.Intn(4) == 0 {
 		labelClash = true // such trees have no Nexus (translate) form: node names must be unique there
 		// taxonomy-like labels: some inner nodes carry the name of a tip (legal: only tips are looked up by name)
-		tn := R.Tips()
+		var tn []string
+		for _, nm := range R.Tips() {
+			if !gen.NumericLooking(nm) { // an inner label that reads as a number is a support, not a name (C01's domain)
+				tn = append(tn, nm)
+			}
+		}
 		var inner []*ref.Node
 		for _, nd := range allNodes(R)[1:] {
 			if !nd.IsTip() && !nd.Sup.Has {
 				inner = append(inner, nd)
 			}
 		}
-		for j := 0; j < 3 && len(inner) > 0; j++ {
+		for j := 0; j < 3 && len(inner) > 0 && len(tn) > 0; j++ {
 			inner[r.Intn(len(inner))].Name = tn[r.Intn(len(tn))]
 		}
-		if r.Intn(2) == 0 && !R.Root.Sup.Has {
+		if r.Intn(2) == 0 && !R.Root.Sup.Has && len(tn) > 0 {
 			R.Root.Name = tn[r.Intn(len(tn))]
 		}
 		o.Ev("inner_labels_equal_to_tip_names", 1)
